@@ -47,6 +47,8 @@ import (
 )
 
 type vPRExec struct {
+	lostAck   bool // schedule "lost acknowledgement": the first --detach starts the process and then fails
+	ndetach   int
 	mu        sync.Mutex
 	rec       *vRec
 	w         int
@@ -103,11 +105,20 @@ func (x *vPRExec) Execute(env map[string]string, cmd string, stdin io.Reader) ([
 		}
 		x.table[uuid] = true
 		w := x.w
+		x.ndetach++
+		lost := x.lostAck && x.ndetach == 1
+		if lost {
+			x.released = true // from now on probes are answered only when the driver lets them
+		}
 		x.mu.Unlock()
 		x.rec.log(map[string]interface{}{"ev": "procsnap", "c": vE2ECtr(uuid), "w": w, "others": others, "others_deaf": false})
 		select {
 		case x.detached <- uuid:
 		default:
+		}
+		if lost {
+			// the process is running, but the caller never learns: connection lost
+			return nil, []byte("verif: connection reset"), fmt.Errorf("verif: ssh: connection lost")
 		}
 		return nil, nil, nil
 	case strings.Contains(cmd, "--kill"):
@@ -120,7 +131,20 @@ func (x *vPRExec) Execute(env map[string]string, cmd string, stdin io.Reader) ([
 	return nil, nil, nil // boot probe
 }
 
-func TestVerifC14ProbeRace(t *testing.T) {
+// Schedule "lost acknowledgement" (9202): "crunch-run --detach" starts the process on the VM and then
+// the connection drops, so that the executor reports an error.  The pool must go on assuming that the
+// process might have started until a probe says otherwise (remoteRunner.Start's contract); if it
+// treats the error as proof that nothing runs, the container is re-queued and started again next to its
+// live first process.  Probes are answered again only after a second --detach or 20 queue refreshes.
+func TestVerifC14LostAck(t *testing.T) { vPRRun(t, true) }
+
+func TestVerifC14ProbeRace(t *testing.T) { vPRRun(t, false) }
+
+func vPRRun(t *testing.T, lostAck bool) {
+	scnID, setID := 9201, "verif-proberace"
+	if lostAck {
+		scnID, setID = 9202, "verif-lostack"
+	}
 	tw := vNewTraceWriter(os.Getenv("VERIF_TRACES"))
 	defer tw.Close()
 	logger := logrus.New()
@@ -155,17 +179,17 @@ func TestVerifC14ProbeRace(t *testing.T) {
 	arvClient, _ := arvados.NewClientFromConfig(cluster)
 	arvClient.AuthToken = arvadostest.AdminToken
 	sd := &test.StubDriver{HostKey: hostpriv}
-	sis, err := sd.InstanceSet(nil, "verif-proberace", nil, logger)
+	sis, err := sd.InstanceSet(nil, cloud.InstanceSetID(setID), nil, logger)
 	if err != nil {
 		t.Fatal(err)
 	}
 	rec := &vRec{known: map[int][2]interface{}{}, ib: map[int]string{}, tw: tw}
 	rec.events = vEventSink{rec}
-	rec.log(map[string]interface{}{"ev": "reset", "scn": 9201, "nc": 1, "nw": 0, "init": []string{"Queued"}, "mode": "sound"})
+	rec.log(map[string]interface{}{"ev": "reset", "scn": scnID, "nc": 1, "nw": 0, "init": []string{"Queued"}, "mode": "sound"})
 	rec.known[1] = [2]interface{}{"Queued", int64(1)}
-	x := &vPRExec{rec: rec, table: map[string]bool{}, caught: make(chan struct{}), release: make(chan struct{}),
+	x := &vPRExec{lostAck: lostAck, rec: rec, table: map[string]bool{}, caught: make(chan struct{}), release: make(chan struct{}),
 		detached: make(chan string, 4), enough: make(chan struct{}), flow: make(chan struct{})}
-	wp := worker.NewPool(logger, arvClient, prometheus.NewRegistry(), "verif-proberace", sis,
+	wp := worker.NewPool(logger, arvClient, prometheus.NewRegistry(), cloud.InstanceSetID(setID), sis,
 		func(inst cloud.Instance) worker.Executor {
 			x.mu.Lock()
 			x.w = vE2EInst(string(inst.ID()))
@@ -184,7 +208,7 @@ func TestVerifC14ProbeRace(t *testing.T) {
 	defer sch.Stop()
 
 	note := func(what string) {
-		rec.log(map[string]interface{}{"ev": "infra", "what": "probe-race schedule not applicable: " + what, "scn": 9201})
+		rec.log(map[string]interface{}{"ev": "infra", "what": "probe-race schedule not applicable: " + what, "scn": scnID})
 		fmt.Println("VERIF-NOTE probe-race schedule not applicable:", what)
 		fmt.Println("VERIF-DRIVER-DONE")
 	}
@@ -211,14 +235,16 @@ func TestVerifC14ProbeRace(t *testing.T) {
 		note("instance did not become idle")
 		return
 	}
-	x.mu.Lock()
-	x.armed = true
-	x.mu.Unlock()
-	select {
-	case <-x.caught:
-	case <-time.After(20 * time.Second):
-		note("no probe caught")
-		return
+	if !lostAck {
+		x.mu.Lock()
+		x.armed = true
+		x.mu.Unlock()
+		select {
+		case <-x.caught:
+		case <-time.After(20 * time.Second):
+			note("no probe caught")
+			return
+		}
 	}
 	uuid := test.ContainerUUID(1)
 	queue.Notify(arvados.Container{UUID: uuid, State: arvados.ContainerStateQueued, Priority: 1,
@@ -230,17 +256,19 @@ func TestVerifC14ProbeRace(t *testing.T) {
 		note("container was not started")
 		return
 	}
-	if !until(20*time.Second, func() bool {
-		for _, iv := range wp.Instances() {
-			if iv.LastContainerUUID == uuid {
-				return true
+	if !lostAck {
+		if !until(20*time.Second, func() bool {
+			for _, iv := range wp.Instances() {
+				if iv.LastContainerUUID == uuid {
+					return true
+				}
 			}
+			return false
+		}) {
+			close(x.release)
+			note("start did not complete")
+			return
 		}
-		return false
-	}) {
-		close(x.release)
-		note("start did not complete")
-		return
 	}
 	x.mu.Lock()
 	x.released = true
